@@ -114,6 +114,15 @@ def dump_curve(c):
             "p": [[q.value, q.units] for p in c.permeances for q in p]}
 
 
+def _plot_is_read_only(w, obj, dump):
+    """the object's own plot() on each of its series must leave the object as it was"""
+    before = fingerprint.deep(dump(obj))
+    proc.plot_everything(obj)
+    after = fingerprint.deep(dump(obj))
+    if before != after:
+        w.plot_changed = fingerprint.first_difference(before, after) or "changed"
+
+
 def execute(w, o, tmpdir):
     """run one op on the world; -> json-able result dump (floats as hex through fingerprint.deep)"""
     from pyvaporation.optimizer import Measurements, find_best_fit, fit
@@ -137,12 +146,14 @@ def execute(w, o, tmpdir):
     if op == "ideal_curve":
         c = w.pv.ideal_diffusion_curve(T, w.comps, tp, pp, w.precision, o["model"])
         w.raw = [c]
+        _plot_is_read_only(w, c, dump_curve)
         return [dump_curve(c), c.get_separation_factor, c.get_psi, c.get_selectivity, [[q.value for q in p] for p in c.get_permeances],
                 [y.p for y in c.permeate_composition]]
     if op in ("ideal_iso", "ideal_noniso", "ideal_iso_save"):
         kind = "ideal_non_isothermal_process" if op == "ideal_noniso" else "ideal_isothermal_process"
         m = getattr(w.pv, kind)(conditions=cond, number_of_steps=o["steps"], delta_hours=o["dt"], precision=w.precision, calculation_type=o["model"])
         w.raw = [m]
+        _plot_is_read_only(w, m, dump_model)
         out = [dump_model(m), m.get_separation_factor, m.get_psi, m.get_selectivity]
         if op == "ideal_iso_save" and w.mix.name in gen.BUILTIN_MIXTURES:
             d = tempfile.mkdtemp(dir=tmpdir)
@@ -312,6 +323,8 @@ def one_history(rep, spec, index, key, tmp, base_builtins):
         for name, obj in w.shared().items():
             diff = fingerprint.first_difference(before[name], fingerprint.deep(obj))
             rep.require("shared argument objects are deeply unchanged after every call", diff is None, ck, {"object": name, "difference": diff})
+        rep.require("plotting a returned model / curve leaves it unchanged", getattr(w, "plot_changed", None) is None, ck, {"difference": getattr(w, "plot_changed", None)})
+        w.plot_changed = None
         now = builtins_fingerprint()
         changed = [n for n in base_builtins if now.get(n) != base_builtins[n]]
         rep.require("built-in components and mixtures are never modified", not changed, ck, {"changed": changed})
